@@ -90,6 +90,9 @@ type Exec struct {
 	unknowns     []string
 	engineErrors []string
 	nondetEnv    int
+	spins        []string
+	spCount      map[string]int
+	preempts     []Preempt
 	lazyRun      int
 	vtime        int64 // virtual time for timer ordering
 	strFacts     map[*Term]*strFact
